@@ -169,16 +169,19 @@ PatInfo(p, base) ==
    \* canonicalisation, an unresolvable '..' in a rootless pattern
    undoc |-> (p = <<>> \/ Canon(ps) = <<>> \/ Loose(ps))]
 
-PathInfo(t, base) ==
-  LET ts == PathString(t, base) IN
-  [tc |-> Canon(ts), undoc |-> Loose(ts)]
+PathInfoOf(tc, loose) ==
+  [tc     |-> tc,              \* canonical path
+   dir    |-> DirOf(tc),       \* ... without its final component
+   dirsep |-> DirOfSep(tc),    \* ... without its final component, keeping the separator in front of it
+   undoc  |-> loose]           \* outside the documented domain: an unresolvable '..' in a rootless path
+PathInfo(t, base) == PathInfoOf(Canon(PathString(t, base)), Loose(PathString(t, base)))
 
 \* The verdict, given the regions Rg(t, real, lax) of a path string and the language membership In(pc, r)
 \* (PathMatchMC passes tabulated versions of Regions and InLang; the definition is this one).
 VerdictWith(Rg(_, _, _), In(_, _), pi, ti, mode) ==
   LET shortened == pi.trail /\ mode = "reg"     \* the final component of the path is out of reach
-      must == IF shortened THEN Rg(DirOf(ti.tc), pi.real, FALSE) ELSE Rg(ti.tc, pi.real, FALSE)
-      may  == IF shortened THEN Rg(DirOf(ti.tc), pi.real, TRUE) \cup Rg(DirOfSep(ti.tc), pi.real, TRUE)
+      must == IF shortened THEN Rg(ti.dir, pi.real, FALSE) ELSE Rg(ti.tc, pi.real, FALSE)
+      may  == IF shortened THEN Rg(ti.dir, pi.real, TRUE) \cup Rg(ti.dirsep, pi.real, TRUE)
               ELSE Rg(ti.tc, pi.real, TRUE)
   IN IF pi.undoc \/ ti.undoc THEN "Open"
      ELSE IF \E r \in must : In(pi.pc, r) THEN "T"
@@ -189,10 +192,10 @@ VerdictI(pi, ti, mode) == VerdictWith(Regions, InLang, pi, ti, mode)
 
 \* the two bounds of the verdict separately, without the domain restriction (used by the laws)
 MustI(pi, ti, mode) ==
-  \E r \in Regions(IF pi.trail /\ mode = "reg" THEN DirOf(ti.tc) ELSE ti.tc, pi.real, FALSE) : InLang(pi.pc, r)
+  \E r \in Regions(IF pi.trail /\ mode = "reg" THEN ti.dir ELSE ti.tc, pi.real, FALSE) : InLang(pi.pc, r)
 MayI(pi, ti, mode) ==
   IF pi.trail /\ mode = "reg"
-  THEN \E r \in Regions(DirOf(ti.tc), pi.real, TRUE) \cup Regions(DirOfSep(ti.tc), pi.real, TRUE) : InLang(pi.pc, r)
+  THEN \E r \in Regions(ti.dir, pi.real, TRUE) \cup Regions(ti.dirsep, pi.real, TRUE) : InLang(pi.pc, r)
   ELSE \E r \in Regions(ti.tc, pi.real, TRUE) : InLang(pi.pc, r)
 
 Must(p, t, base, mode)    == MustI(PatInfo(p, base), PathInfo(t, base), mode)
